@@ -61,8 +61,9 @@ def _features(kind, n, rng):
         return pl.DataFrame({"n": pl.Series(rng.integers(-5, 5, n), dtype=pl.Int64), "big": pl.Series(rng.integers(0, 10**9, n), dtype=pl.Int64)})
     if kind == "mixed":
         return pl.DataFrame({
-            "i": pl.Series(rng.integers(0, 100, n), dtype=pl.Int32),
+            "score": pl.Series(rng.integers(0, 100, n), dtype=pl.Int32),
             "f": pl.Series(rng.integers(-10**6, 10**6, n) / 1e3, dtype=pl.Float64),
+            "path-len": pl.Series(rng.integers(10**9, 2 * 10**9, n) / 1e6, dtype=pl.Float64),  # needs float64
             "s": pl.Series([["alpha", "b c", "x,y", "Z"][int(i)] for i in rng.integers(0, 4, n)], dtype=pl.Utf8),
             "b": pl.Series([bool(i) for i in rng.integers(0, 2, n)], dtype=pl.Boolean),
         })
@@ -114,7 +115,7 @@ def replay(case) -> dict:
     pos = np.asarray(_positions(cfg["lattice"], n, rng), dtype=np.float64).reshape(n, 3)
     mol = Molecules(pos, _rotations(cfg["rots"], n, rng), features=_features(cfg["feats"], n, rng))
     ev = dict(id=str(case["_i"]), via=cfg["via"], suffix=cfg["suffix"], prec=cfg["prec"], cols=list(mol.features.columns),
-              header=[], stored_as="", rows=_rows(mol), back=[], err="")
+              header=[], stored_as="", rows=_rows(mol), back=[], err="", cols_back=[])
     tmp = tempfile.mkdtemp(prefix="c13-", dir=str(engine.WORK))
     path = os.path.join(tmp, "mole" + cfg["suffix"])
     try:
@@ -144,6 +145,7 @@ def replay(case) -> dict:
             else:
                 ev["header"] = list(pl.read_parquet(path).columns)
         ev["back"] = _rows(back, ref_rot=mol.rotator)
+        ev["cols_back"] = list(back.features.columns)
     except Exception as e:  # noqa: BLE001
         ev["err"] = type(e).__name__ + ": " + str(e)[:120]
     finally:
